@@ -323,3 +323,23 @@ package decoder
 //@   loop 1: invariant 0 <= x && x < m.width && x + 1 <= y && y <= m.width && gozxing.wfBM(m) && m.width == m.height && this.bitMatrix == m
 //@   loop 1: invariant forall a int, b int :: gozxing.widx(m, a, b) && gozxing.widx(m, b, a) && 0 <= a && a < m.width && 0 <= b && b < m.width ==> gozxing.mget(m, a, b) == (swappedUpTo(a, b, x, y) ? old(gozxing.mget(m, b, a)) : old(gozxing.mget(m, a, b)))
 //@   loop 1: decreases m.width - y
+
+// ---------------------------------------------------------------- ReadVersion (C06): whatever version is reported fits the matrix it was read from
+//@ func (this *BitMatrixParser) ReadVersion() (r *Version, e error)
+//@   property C06
+//@   globals VERSIONS, VERSION_DECODE_INFO
+//@   let m = this.bitMatrix
+//@   requires m != nil && gozxing.wfBM(m) && m.width == m.height && m.height >= 21 && (m.height - 17) % 4 == 0 && m.height <= 177
+//@   requires this.parsedVersion != nil ==> 17 + 4 * this.parsedVersion.versionNumber == m.height
+//@   ensures e == nil ==> r != nil && 17 + 4 * r.versionNumber == m.height
+//@   ensures e != nil ==> r == nil
+//@   ensures this.parsedVersion != nil ==> 17 + 4 * this.parsedVersion.versionNumber == m.height
+//@   modifies this.parsedVersion
+//@   loop 0: invariant -1 <= j && j <= 5 && this.bitMatrix == m && this.parsedVersion == nil
+//@   loop 0: decreases j + 1
+//@   loop 1: invariant 0 <= j && j <= 5 && ijMin - 1 <= i && i <= dimension - 9 && this.bitMatrix == m && this.parsedVersion == nil && ijMin == dimension - 11 && dimension == m.height
+//@   loop 1: decreases i - ijMin + 1
+//@   loop 2: invariant -1 <= i && i <= 5 && this.bitMatrix == m && this.parsedVersion == nil
+//@   loop 2: decreases i + 1
+//@   loop 3: invariant 0 <= i && i <= 5 && ijMin - 1 <= j && j <= dimension - 9 && this.bitMatrix == m && this.parsedVersion == nil && ijMin == dimension - 11 && dimension == m.height
+//@   loop 3: decreases j - ijMin + 1
